@@ -17,6 +17,7 @@ import (
 // virtual clock). Every call is a scheduling point and is logged for the oracles.
 type FS struct {
 	FaultOps   map[string]bool        // kinds of call that may be failed by the explorer (nil = every kind)
+	Cwd        string                 // working directory of the modelled process ("" = "/")
 	WriteGate  func(path string) bool // when set: a write to path does not start before it returns true (a slow / stalled disk: the writer waits, nothing fails)
 	Unwritable func(path string) bool // paths whose every write fails with ENOSPC (a full disk: part of the scenario, not a deviation)
 	// NoShortWrites: an injected write fault refuses the whole write (EIO), never stores half of it
@@ -87,7 +88,41 @@ func newFS(x *Exec) *FS {
 	return &FS{x: x, Nodes: map[string]*Inode{"/": {Dir: true}, ".": {Dir: true}}, Open: map[*File]struct{}{}}
 }
 
-func clean(p string) string { return filepath.Clean(p) }
+// clean resolves a path the way the kernel does: relative names against the working directory of the process
+// (Cwd, "/" unless a scenario or the code under test changes it with Chdir).
+func (f *FS) clean(p string) string {
+	if !filepath.IsAbs(p) {
+		cwd := f.Cwd
+		if cwd == "" {
+			cwd = "/"
+		}
+		p = filepath.Join(cwd, p)
+	}
+	return filepath.Clean(p)
+}
+
+// Chdir / Getwd: the working directory of the modelled process.
+func (f *FS) Chdir(dir string) error {
+	Point(KFS, nil)
+	d := f.clean(dir)
+	if n, ok := f.Nodes[d]; !ok || !n.Dir {
+		f.log(FSCall{Op: "chdir", Path: d, Err: "ENOENT"})
+		return pathErr("chdir", dir, syscall.ENOENT)
+	}
+	f.Cwd = d
+	f.log(FSCall{Op: "chdir", Path: d})
+	return nil
+}
+
+func (f *FS) Getwd() string {
+	if f.Cwd == "" {
+		return "/"
+	}
+	return f.Cwd
+}
+
+// Abs mirrors filepath.Abs on the modelled working directory.
+func (f *FS) Abs(p string) string { return f.clean(p) }
 
 func (f *FS) log(c FSCall) {
 	c.Step = f.x.Steps
@@ -103,7 +138,7 @@ func (f *FS) log(c FSCall) {
 
 // MkdirAll creates a directory and its parents (harness set-up; not a scheduling point).
 func (f *FS) MkdirAll(dir string) {
-	dir = clean(dir)
+	dir = f.clean(dir)
 	for d := dir; ; d = filepath.Dir(d) {
 		if n, ok := f.Nodes[d]; !ok || !n.Dir {
 			f.Nodes[d] = &Inode{Dir: true, MTime: f.x.Now}
@@ -116,14 +151,14 @@ func (f *FS) MkdirAll(dir string) {
 
 // Put creates a regular file with the given content and mtime (harness set-up).
 func (f *FS) Put(path string, data []byte, mtime time.Time) {
-	path = clean(path)
+	path = f.clean(path)
 	f.MkdirAll(filepath.Dir(path))
 	f.Nodes[path] = &Inode{Data: append([]byte(nil), data...), MTime: mtime}
 }
 
 // List returns the names in dir, sorted.
 func (f *FS) List(dir string) []string {
-	dir = clean(dir)
+	dir = f.clean(dir)
 	var out []string
 	for p := range f.Nodes {
 		if p != dir && filepath.Dir(p) == dir {
@@ -136,7 +171,7 @@ func (f *FS) List(dir string) []string {
 
 // OpenCount returns the number of open descriptors whose path lies under dir.
 func (f *FS) OpenCount(dir string) int {
-	dir = clean(dir)
+	dir = f.clean(dir)
 	n := 0
 	for fl := range f.Open {
 		if strings.HasPrefix(fl.Path, dir+"/") || filepath.Dir(fl.Path) == dir {
@@ -151,7 +186,7 @@ func pathErr(op, path string, err error) error { return &fs.PathError{Op: op, Pa
 // OpenFile mirrors os.OpenFile.
 func (f *FS) OpenFile(name string, flag int, perm os.FileMode) (*File, error) {
 	Point(KFS, nil)
-	p := clean(name)
+	p := f.clean(name)
 	if f.fault("open", 2) == 1 {
 		f.log(FSCall{Op: "open", Path: p, Flag: flag, Err: "ENOENT(injected)"})
 		return nil, pathErr("open", name, syscall.ENOENT)
@@ -421,7 +456,7 @@ func (fl *File) Seek(offset int64, whence int) (int64, error) {
 // Chtimes sets the modification time of a file.
 func (f *FS) Chtimes(name string, mtime time.Time) error {
 	Point(KFS, nil)
-	p := clean(name)
+	p := f.clean(name)
 	n, ok := f.Nodes[p]
 	if !ok {
 		f.log(FSCall{Op: "chtimes", Path: p, Err: "ENOENT"})
@@ -449,6 +484,14 @@ func (fl *File) Fd() uintptr {
 // Code that keeps a descriptor number instead of the *os.File still talks to the in-memory filesystem:
 // every call is the corresponding File method (same scheduling points, faults, crash semantics). Numbers
 // that do not belong to an open in-memory file get EBADF - except 1 and 2, which are the captured streams.
+
+// FilepathAbs replaces filepath.Abs in instrumented sources (the working directory is the modelled one).
+func FilepathAbs(p string) (string, error) {
+	if x := cur; x != nil && x.FS != nil {
+		return x.FS.Abs(p), nil
+	}
+	return filepath.Abs(p)
+}
 
 const vfdBase = 1000
 
@@ -634,7 +677,7 @@ func (e *entry) Sys() any           { return nil }
 // ReadDir mirrors os.ReadDir.
 func (f *FS) ReadDir(dir string) ([]fs.DirEntry, error) {
 	Point(KFS, nil)
-	d := clean(dir)
+	d := f.clean(dir)
 	if f.fault("readdir", 2) == 1 {
 		f.log(FSCall{Op: "readdir", Path: d, Err: "EIO(injected)"})
 		return nil, pathErr("open", dir, syscall.EIO)
@@ -654,7 +697,7 @@ func (f *FS) ReadDir(dir string) ([]fs.DirEntry, error) {
 // Remove mirrors os.Remove.
 func (f *FS) Remove(name string) error {
 	Point(KFS, nil)
-	p := clean(name)
+	p := f.clean(name)
 	if f.fault("remove", 2) == 1 {
 		f.log(FSCall{Op: "remove", Path: p, Err: "EACCES(injected)"})
 		return pathErr("remove", name, syscall.EACCES)
@@ -681,7 +724,7 @@ func (f *FS) Remove(name string) error {
 // RemoveAll mirrors os.RemoveAll.
 func (f *FS) RemoveAll(name string) error {
 	Point(KFS, nil)
-	p := clean(name)
+	p := f.clean(name)
 	for q, n := range f.Nodes {
 		if q == p || strings.HasPrefix(q, p+"/") {
 			n.Removed = true
@@ -695,7 +738,7 @@ func (f *FS) RemoveAll(name string) error {
 // Stat mirrors os.Stat.
 func (f *FS) Stat(name string) (fs.FileInfo, error) {
 	Point(KFS, nil)
-	p := clean(name)
+	p := f.clean(name)
 	n, ok := f.Nodes[p]
 	if !ok {
 		return nil, pathErr("stat", name, syscall.ENOENT)
@@ -706,7 +749,7 @@ func (f *FS) Stat(name string) (fs.FileInfo, error) {
 // Rename mirrors os.Rename (files and directories).
 func (f *FS) Rename(from, to string) error {
 	Point(KFS, nil)
-	a, b := clean(from), clean(to)
+	a, b := f.clean(from), f.clean(to)
 	if _, ok := f.Nodes[a]; !ok {
 		f.log(FSCall{Op: "rename", Path: a, Err: "ENOENT"})
 		return pathErr("rename", from, syscall.ENOENT)
@@ -729,6 +772,6 @@ func (f *FS) Rename(from, to string) error {
 func (f *FS) Mkdir(name string) error {
 	Point(KFS, nil)
 	f.MkdirAll(name)
-	f.log(FSCall{Op: "mkdir", Path: clean(name)})
+	f.log(FSCall{Op: "mkdir", Path: f.clean(name)})
 	return nil
 }
